@@ -55,6 +55,13 @@ def cases(ctx):
             if ctx.mine(k):
                 yield {"kind": "special", "flavour": "vanilla", "mnemonic": m, "slot": slot, "special": special,
                        "base": codec.rand_values(rng, isa.TABLE["vanilla"][m][1]), "name": "x"}
+    # booleans as register indices and array addresses (in range, accepted by the type checks, encoded as 0 / 1)
+    for m in ("set", "array", "store", "load", "wait_all", "meas", "ret_arr", "ret_reg", "qalloc", "add", "lea", "undef", "wait_single"):
+        if m in isa.TABLE["vanilla"]:
+            k += 1
+            if ctx.mine(k):
+                yield {"kind": "special", "flavour": "vanilla", "mnemonic": m, "slot": -1, "special": "bool-indices",
+                       "base": codec.rand_values(rng, isa.TABLE["vanilla"][m][1]), "name": "x"}
     # user-defined flavours: one Flavour subclass instantiated for different devices (different instruction lists), and a
     # flavour object extended after construction - each must print/parse with its OWN instruction set
     for i in range(ctx.n(4, 2000)):
@@ -184,7 +191,22 @@ def _special(ctx, case):
     fobj = codec.flavour_obj(flav)
     kinds = isa.TABLE[flav][m][1]
     ops = [codec.mk_operand(kd, v) for kd, v in zip(kinds, case["base"])]
-    ops[slot] = Template(case["name"]) if case["special"] == "template" else Immediate(case["special"] == "true")
+    if case["special"] == "bool-indices":
+        from netqasm.lang.operand import Address, ArrayEntry, ArraySlice, Register
+
+        def b(o):
+            if isinstance(o, Register):
+                return Register(o.name, bool(o.index % 2))
+            if isinstance(o, Address):
+                return Address(bool(o.address % 2))
+            if isinstance(o, ArrayEntry):
+                return ArrayEntry(b(o.address), b(o.index))
+            if isinstance(o, ArraySlice):
+                return ArraySlice(b(o.address), b(o.start), b(o.stop))
+            return o
+        ops = [b(o) for o in ops]
+    else:
+        ops[slot] = Template(case["name"]) if case["special"] == "template" else Immediate(case["special"] == "true")
     try:
         instr = fobj.get_instr_by_name(m).from_operands(ops)
     except Exception:
@@ -254,6 +276,19 @@ def run_case(ctx, case):
         ctx.fail(case, f"{flav}: parsed subroutine differs from the instructions that were printed")
     elif raw != isa.encode_subroutine(flav, [1, 0], 0, case["instrs"]):
         ctx.fail(case, f"{flav}: bytes of the re-parsed text differ from the reference encoding of the same program")
+    else:
+        # the printed text exactly as the printer writes it (no `# NETQASM` / `# APPID` lines): it parses, and with an application
+        # id set through the public setter it serialises to the same instruction bytes under the current version
+        ctx.count("preamble_less_text_checks")
+        try:
+            bare = parse_text_subroutine(text1, flavour=fobj)
+            bare.app_id = 0
+            raw_bare = bytes(bare)
+        except Exception as e:
+            ctx.fail(case, f"{flav}: the printed text without a preamble parses but cannot be serialised: {type(e).__name__}: {str(e)[:100]}")
+            return ctx.case(case)
+        if raw_bare[4:] != raw[4:] or len(objs) != len(bare.instructions):
+            ctx.fail(case, f"{flav}: the printed text without a preamble serialises to other instruction bytes than with one")
     # the NV transpiler (or any consumer) edits the instructions of a parsed subroutine in place; parsing the same source
     # again afterwards must give the program the source denotes
     for ins_, (m, _) in zip(sub.instructions, case["instrs"]):
